@@ -21,6 +21,7 @@ import (
 
 	"verif/engine/vctx"
 	"verif/engine/vsched"
+	"verif/engine/vsync"
 )
 
 const (
@@ -179,7 +180,9 @@ type poolWorld struct {
 	addrs                     string
 	resolved                  bool
 	calls                     []*call // open (returned, not completed) and parked calls
-	pairCalls                 []*call // snapshot of the open calls after the setup (pairs harness)
+	pairRefs                  []*subConnRef
+	serializer                vsync.Mutex // pair harness: balancer callbacks are delivered one at a time
+	pairCalls                 []*call     // snapshot of the open calls after the setup (pairs harness)
 	pairPlaced, pairCompleted int
 	ncalls                    int
 	rrEpoch                   int
